@@ -118,6 +118,7 @@ struct PendingState {
 
 struct ActiveState {
     local_nonce: u32,
+    remote_nonce: u32,
     half_connection: half_connection::HalfConnection,
     timeout_time_ms: u64,
     disconnect_signal: Option<DisconnectMode>,
@@ -457,6 +458,7 @@ impl Client {
 
                     self.state = State::Active(ActiveState {
                         local_nonce: state.local_nonce,
+                        remote_nonce: frame.nonce,
                         half_connection,
                         timeout_time_ms: now_ms + self.config.endpoint_config.active_timeout_ms,
                         disconnect_signal: None,
@@ -468,8 +470,13 @@ impl Client {
                 // the nonce ack matches ours (and ignore it otherwise). This case is only
                 // encountered when our initial ACK was dropped - all that matters is that the
                 // server receives an ACK.
+                //
+                // The SYN+ACK must also carry the server nonce this connection was established
+                // with. One carrying a different nonce answers a stale duplicate of our SYN that
+                // reached the server after it had forgotten this connection; acknowledging it
+                // would make the server report a new connection that does not exist here.
 
-                if frame.nonce_ack == state.local_nonce {
+                if frame.nonce_ack == state.local_nonce && frame.nonce == state.remote_nonce {
                     let reply = frame::Frame::HandshakeAckFrame(frame::HandshakeAckFrame {
                         nonce_ack: frame.nonce,
                     });
